@@ -223,7 +223,8 @@ alac_close	(SF_PRIVATE *psf)
 static int
 alac_byterate	(SF_PRIVATE *psf)
 {
-	if (psf->file.mode == SFM_READ)
+	/* An empty or truncated file has no frames to average over. */
+	if (psf->file.mode == SFM_READ && psf->sf.frames > 0)
 		return (psf->datalength * psf->sf.samplerate) / psf->sf.frames ;
 
 	return -1 ;
